@@ -27,9 +27,19 @@ CHECKS = {
          "Seeded exploration of fault sequences on the wire (corrupted, wrongly sized, duplicated, reordered, interrupted, foreign frames; line noise; CAN overruns, standard/remote frames) x polling schedules x left-over receiver state x receiver restarts, against the real try_get_packet of all three links. Oracle: every poll returns (no panic, overflow or out-of-bounds: checks are compiled in), no poll blocks once the script is exhausted, and after any prefix two back-to-back probe packets come out as [P1,P2] or as [P2] with an error reported on P1 - never altered, stitched or with P2 missing. Found and led to the repair of four defects (known_findings.txt).",
          "Trusted: result attribution by the last frame taken from the device; whole link frames only; the library's own encoders define what a valid frame is. Not a proof.",
          "DESIGN.md §5 S-LINK / C06"),
+ "C19": ("exploration",
+         "deterministic simulation over long hostile/clean traffic histories with a counting allocator (SUT/SIM domain tags) as observation point, measured after every poll",
+         "Seeded exploration of long traffic histories (hundreds to tens of thousands of link frames per run, hostile and clean, incl. abandoned 4096-frame announcements and real 4096-frame packets) under seeded polling schedules; SUT-domain heap bytes are measured after every poll and the largest single SUT allocation during every poll. Oracle: bounded by fresh + constant + 96 B x announced size between polls, no more than a fresh receiver right after a delivery or reassembly error, no single allocation beyond what a one-byte length can announce unless explained by the packet in flight; nothing left when the receiver is dropped.",
+         "Trusted: the counting allocator's domain attribution (devices and harness switch to SIM on entry); bounds are deliberately loose in the constant factors (36 B per frame real vs 96 B allowed). Not a proof.",
+         "DESIGN.md §5 S-LINK / C19"),
+ "C14": ("fault_enumeration",
+         "deterministic simulation of the transmit-side devices: exhaustive single-fault placement (would-block burst, short write of every size, Interrupted, hard error, flush error, displaced frame at every device call) plus seeded random reaction sequences",
+         "For a fixed packet list x 3 links every single fault position is enumerated after a dry run that counts the device calls (exhaustive over that list only); on top, seeded exploration with random packets up to 4096 frames and random reaction mixes. Oracle: the stream the device accepted is always a prefix of the packet's frames (the library's own fragmenter/encoders define them), equal to it whenever Ok is returned; write/flush failures and displaced frames yield Err; delays and partial writes alone never make the call fail or block. Found and led to the repair of the short-write defect (known_findings.txt).",
+         "Trusted: device models return only values the real drivers can return; the expected stream is defined by the library's own to_frames/encoders. Not a proof beyond the enumerated list.",
+         "DESIGN.md §5 S-SEND / C14"),
 }
 
-PENDING = {'C01': 'check not built yet in this round (claimed in DESIGN.md §5; will move to checks when its scenario exists)', 'C07': 'check not built yet in this round (claimed in DESIGN.md §5; will move to checks when its scenario exists)', 'C14': 'check not built yet in this round (claimed in DESIGN.md §5; will move to checks when its scenario exists)', 'C15': 'check not built yet in this round (claimed in DESIGN.md §5; will move to checks when its scenario exists)', 'C16': 'check not built yet in this round (claimed in DESIGN.md §5; will move to checks when its scenario exists)', 'C17': 'check not built yet in this round (claimed in DESIGN.md §5; will move to checks when its scenario exists)', 'C18': 'check not built yet in this round (claimed in DESIGN.md §5; will move to checks when its scenario exists)', 'C19': 'check not built yet in this round (claimed in DESIGN.md §5; will move to checks when its scenario exists)'}
+PENDING = {'C01': 'check not built yet in this round (claimed in DESIGN.md §5; will move to checks when its scenario exists)', 'C07': 'check not built yet in this round (claimed in DESIGN.md §5; will move to checks when its scenario exists)', 'C15': 'check not built yet in this round (claimed in DESIGN.md §5; will move to checks when its scenario exists)', 'C16': 'check not built yet in this round (claimed in DESIGN.md §5; will move to checks when its scenario exists)', 'C17': 'check not built yet in this round (claimed in DESIGN.md §5; will move to checks when its scenario exists)', 'C18': 'check not built yet in this round (claimed in DESIGN.md §5; will move to checks when its scenario exists)'}
 
 def cmd(pid, tier):
     return "./check %s %s" % (pid, tier)
